@@ -157,7 +157,10 @@ def rule_no_stale_entries_under_a_changed_mask(eng, rep, rule="C12-4.work-vector
                     stores.setdefault(mk[0], []).append((n, mk[1], mk[2], mk[3], st))
         for v, lst in sorted(stores.items()):
             # on-mask stores: those whose mask selects the free components; the mask is the one used by the stores that never read v
-            embedding = [x for x in lst if v not in [m.id for m in ast.walk(x[4].value) if isinstance(m, ast.Name)]]
+            from .common import expand_locals
+            if v in fi.all_params:
+                continue        # the caller's vector: its entries off the mask are data, not padding
+            embedding = [x for x in lst if v not in [m.id for m in ast.walk(expand_locals(cfg, x[4], x[4].value)) if isinstance(m, ast.Name)]]
             selfref = [x for x in lst if x not in embedding]
             if not embedding:
                 continue
@@ -249,6 +252,84 @@ def rule_no_stale_entries_under_a_changed_mask(eng, rep, rule="C12-4.work-vector
     rep.require_count(rule, "work vectors embedded under an active-set mask", ninst, 1)
 
 
+def _is_const(e):
+    return isinstance(e, ast.Constant) or const_value(e) is not None
+
+
+def rule_scan_accumulators_are_reset(eng, rep, rule="C12-6.index-found-by-a-scan-is-reset-before-every-scan", funcs=LOOP_FUNCS):
+    """`iact = None; for i in range(n): ... iact = i` finds the variable that limits this step.  The index is only meaningful for the scan that has just run: if a scan can be
+    entered again (through an enclosing loop) on a path that passes no re-initialisation, a later pass that finds nothing still sees the index of an earlier pass and
+    fixes a variable at a bound it never reached.  For every local that receives the loop variable of a scanning `for` inside that loop: on every path that leaves the
+    scan and comes back to its head, a constant is assigned to the local first."""
+    ninst = 0
+    for fid in funcs:
+        fi = eng.fn(fid)
+        cfg = eng.cfg(fi)
+        for (h, kind, st) in cfg.loops:
+            if kind != "for":
+                continue
+            tv = set(x.id for x in ast.walk(st.target) if isinstance(x, ast.Name))
+            inside = cfg.loop_nodes(h)
+            accs = {}
+            for n in inside:
+                a = cfg.ast_of(n)
+                if cfg.kind(n) == "stmt" and isinstance(a, ast.Assign) and len(a.targets) == 1 and isinstance(a.targets[0], ast.Name) \
+                        and isinstance(a.value, ast.Name) and a.value.id in tv and a.targets[0].id not in tv:
+                    accs.setdefault(a.targets[0].id, []).append(n)
+            for var, stores in sorted(accs.items()):
+                inits = set()
+                for n, d in cfg.g.nodes(data=True):
+                    a = d["ast"]
+                    if d["kind"] != "stmt" or not isinstance(a, ast.Assign):
+                        continue
+                    for t in a.targets:
+                        if isinstance(t, ast.Name) and t.id == var and _is_const(a.value):
+                            inits.add(n)
+                        elif isinstance(t, (ast.Tuple, ast.List)) and isinstance(a.value, (ast.Tuple, ast.List)) and len(t.elts) == len(a.value.elts):
+                            for te, ve in zip(t.elts, a.value.elts):
+                                if isinstance(te, ast.Name) and te.id == var and _is_const(ve):
+                                    inits.add(n)
+                ninst += 1
+                site = eng.where(fi, st)
+                # search over (node, has the path left the scan?) from each store, avoiding the re-initialisations, for a return to the head of the scan
+                from collections import deque
+                hit = None
+                for s0 in stores:
+                    prev = {(s0, False): None}
+                    dq = deque([(s0, False)])
+                    while dq and hit is None:
+                        cur = dq.popleft()
+                        n, left = cur
+                        for m2 in cfg.g.successors(n):
+                            if cfg.g[n][m2]["kind"] == "exc" or m2 in inits:
+                                continue
+                            nl = left or (m2 not in inside)
+                            nxt = (m2, nl)
+                            if nxt in prev:
+                                continue
+                            prev[nxt] = cur
+                            if m2 == h and nl:
+                                path = [m2]
+                                c = cur
+                                while c is not None:
+                                    path.append(c[0])
+                                    c = prev[c]
+                                hit = (s0, path[::-1])
+                                break
+                            dq.append(nxt)
+                    if hit:
+                        break
+                if hit:
+                    rep.bad(rule, eng.where(fi, cfg.ast_of(hit[0])), "%s|stale-scan-index|%s" % (fid, var),
+                            "`%s` keeps the index found by an earlier pass of the scan `for %s in %s`: the scan can be entered again without `%s` being reset, so a pass that finds "
+                            "nothing acts on the variable found before" % (var, ekey(st.target), short(st.iter, 30), var), path=cfg.describe_path(hit[1]))
+                elif not inits:
+                    rep.ok(rule, site, "`%s` (index found by this scan): the scan is entered once" % var, nontrivial=False)
+                else:
+                    rep.ok(rule, site, "`%s` (index found by the scan `for %s in %s`) is reset on every path that leads back into the scan" % (var, ekey(st.target), short(st.iter, 30)))
+    rep.require_count(rule, "indices found by a scanning loop", ninst, 3)
+
+
 def _pretty(r, n=300):
     """the residual with the version suffixes of the symbols replaced by small indices (t#731, t#802 -> t1, t2; a base name used once keeps its name)"""
     import re
@@ -317,5 +398,6 @@ def run(eng, rep):
     rule_totality(eng, rep)
     rule_no_stale_entries_under_a_changed_mask(eng, rep)
     rule_gradient_relation(eng, rep)
+    rule_scan_accumulators_are_reset(eng, rep)
     from .mirrorrule import rule_mirror
     rule_mirror(eng, rep, 'C12-3.lower-and-upper-bound-handling-are-reflections', ['trust_region.alt_trust_step', 'trust_region.trsbox', 'trust_region.d_within_bounds'])
